@@ -1226,6 +1226,8 @@ def check_C06(A, R, tier):
                 n += 1
                 cancels = [x for x in run.by_kind("set_op") if x["op"] == "insert" and x["target"][0] == "local" and x["elem"][0] == "key"
                            and x["elem"][1] == v["key"][0] and connected(A, v, x)]
+                cancels += [x for x in run.by_kind("mark") if x["key"][0] == v["key"][0] and x["value"][0] == "fin"
+                            and set(x["value"][2]) == {(1,)} and connected(A, v, x)]
                 retains = [x for x in run.by_kind("retain") if x["fid"] == v["fid"] or True]
                 R.ob("R6.6", "%s | consider handler from %s emits %s | pending consider signals for the job are cancelled (a second %s would be rejected)"
                      % (short(v["fn"]), A.sname(s), A.kname(k2), A.kname(k2)), bool(cancels) and bool(retains),
